@@ -1,6 +1,8 @@
 package main
 
 import (
+	"os"
+	"time"
 	"fmt"
 	"go/types"
 	"sort"
@@ -382,7 +384,15 @@ func (c *Ctx) solve(ts []*Term, timeoutMs int) (SatResult, *Model) {
 	if c.cfg.DumpQueries != "" {
 		c.dumpN++
 	}
+	tq := time.Now()
 	r, vals, msg := c.solver.Check(script, timeoutMs, want)
+	if d := time.Since(tq); d > 500*time.Millisecond && c.cfg.Verbose {
+		fmt.Printf("    slow query %.2fs (%s) terms=%d size=%d\n", d.Seconds(), r, len(ts), len(script))
+		if sd := os.Getenv("GOSMT_SLOWDUMP"); sd != "" {
+			c.dumpN++
+			os.WriteFile(fmt.Sprintf("%s/slow_%d.smt2", sd, c.dumpN), []byte(script), 0o644)
+		}
+	}
 	if r == Unknown && c.cfg.Verbose {
 		fmt.Printf("    solver unknown: %s\n", msg)
 	}
